@@ -88,13 +88,50 @@ def norm(path):
                 depth -= 1
                 if depth == 0:
                     inner, rest = path[1:i], path[i + 1:]
-                    a, b = _split_as(inner)
-                    a = norm(a) if a.startswith('<') else strip_generics(a)
+                    a0, b0 = _split_as(inner)
+                    a = norm(a0) if a0.startswith('<') else strip_generics(a0)
                     a = a.replace("&'a mut ", "&mut ").replace("&'a ", "&")
-                    if b is None:
+                    if b0 is None:
                         return '<' + a + '>' + norm_rest(rest)
-                    return '<' + a + ' as ' + strip_generics(b) + '>' + norm_rest(rest)
+                    plain = '<' + a + ' as ' + strip_generics(b0) + '>' + norm_rest(rest)
+                    if plain.split('::{closure')[0] in _AMBIGUOUS:
+                        # several impls differ only in generic arguments (`impl AccessTime for DeqNode<KeyDate<K>>` / `.. DeqNode<KeyHashDate<K>>`):
+                        # keep the heads of the first-level arguments so that each impl, and each call resolved to it, keeps its own name
+                        return '<' + a + _arg_heads(a0) + ' as ' + strip_generics(b0) + _arg_heads(b0) + '>' + norm_rest(rest)
+                    return plain
     return strip_generics(path)
+
+
+_AMBIGUOUS = set()
+
+
+def _arg_heads(s):
+    """'<Head1,Head2>' of the first-level generic arguments of a type path ('' if it has none)."""
+    k = s.find('<')
+    if k < 0 or not s.rstrip().endswith('>'):
+        return ''
+    inner = s[k + 1:s.rstrip().rfind('>')]
+    args, depth, cur = [], 0, ''
+    for i, c in enumerate(inner):
+        if c == '<':
+            depth += 1
+        elif c == '>' and not (i > 0 and inner[i - 1] == '-'):
+            depth -= 1
+        if c == ',' and depth == 0:
+            args.append(cur); cur = ''
+        else:
+            cur += c
+    if cur.strip():
+        args.append(cur)
+    heads = [strip_generics(x.strip()) for x in args if not x.strip().startswith("'")]
+    return '<' + ','.join(heads) + '>' if heads else ''
+
+
+def register_ambiguous(ids):
+    """Called once per fact set: def paths whose plain normal form is shared by several bodies."""
+    from collections import Counter
+    c = Counter(norm(i).split('::{closure')[0] for i in ids if '{closure' not in i)
+    _AMBIGUOUS.update(k for k, v in c.items() if v > 1 and k.startswith('<'))
 
 
 def norm_rest(rest):
@@ -373,8 +410,11 @@ class Program:
         self.facts = facts
         self.crate = facts['crate']
         self.bodies = {}
+        register_ambiguous([raw['id'] for raw in facts['bodies']])
         for raw in facts['bodies']:
             b = Body(raw, self)
+            if b.nid in self.bodies:
+                raise ValueError('two bodies share the normalised name %s' % b.nid)
             self.bodies[b.nid] = b
         self.adts = {norm(a['id']): a for a in facts['adts']}
         self.consts = {norm(c['id']): c for c in facts['consts']}
@@ -518,6 +558,14 @@ class Program:
                 targets, ext, passed = self.call_targets(b, t)
                 out.update(targets)
                 out.update(passed)
+                # a function item handed over as a value (`self.with_nodes(DeqNodes::take_access_order)`) is callable by the callee, like a closure
+                for a_ in t['args']:
+                    if isinstance(a_, dict) and a_.get('fn'):
+                        f_ = norm(a_['fn'])
+                        if f_ in self.bodies:
+                            out.add(f_)
+                        elif f_ in self.trait_impls:
+                            out.update(self.trait_impls[f_])
             elif t['t'] == 'drop':
                 out.update(self.drop_bodies_for_type(t['ty']['s']))
         # closures constructed here are (conservatively) callable from here
